@@ -43,6 +43,34 @@ def InF1 (q : Query) : Bool :=
       rv.eraseDups.length == rv.length
     | _ => true
 
+/-- a projection of the relational core: plain items (no aggregate), no ORDER BY; DISTINCT, SKIP, LIMIT are free -/
+def coreProj (p : Proj) : Bool := !p.items.any Spec.isAgg && p.orderBy.isEmpty
+
+/-- the MATCH-free relational core of F1: any sequence of UNWIND, WHERE (not as the first clause — the parser never
+    produces that) and WITH, closed by RETURN.  The flag says whether a clause precedes. -/
+def coreClauses : Bool → Query → Bool
+  | _, [.return_ p] => coreProj p
+  | _, .unwind _ _ :: q => coreClauses true q
+  | _, .with_ p none :: q => coreProj p && coreClauses true q
+  | true, .where_ _ :: q => coreClauses true q
+  | _, _ => false
+
+def InCore (q : Query) : Bool := coreClauses false q
+
+/-- the result is determined as a bag: no SKIP / LIMIT and no `collect` from the first MATCH on.  (Which rows a
+    window keeps among ties and the element order of a collected list depend on the order in which the expansions
+    produce rows; the stream compares those as sequences up to ties / as counts, `Agrees` compares bags.) -/
+def BagDetermined (q : Query) : Bool :=
+  (q.dropWhile fun | .match_ _ _ => false | _ => true).all fun
+    | .with_ p _ | .return_ p =>
+      p.skip.isNone && p.limit.isNone &&
+        p.items.all fun it => match it.expr with | .agg .collect _ => false | _ => true
+    | _ => true
+
+/-- the aggregate folds (except `collect`) do not depend on the order of their input -/
+def AggBagInvariant (A : Algebra) : Prop :=
+  ∀ k, k ≠ AggKind.collect → ∀ l l' : List Val, l.Perm l' → A.agg k l = A.agg k l'
+
 /-- none of the known findings of C11 is triggered by (graph, query) -/
 def NoKnownTrigger (A : Algebra) (env : Env) (q : Query) : Bool := (Findings.triggers A env q).isEmpty
 
